@@ -32,6 +32,10 @@ def run(res, seed, nthreads=6, per=5):
         with lock:
             seen.append((str(q.PatientID), cmd.get(R.TAG_MESSAGE_ID), str(q.PatientName),
                          rq['calling'].strip(b' \0').decode()))
+        if str(q.PatientName).endswith('X'):
+            # this query fails: the peer aborts instead of answering
+            peer.abort(2, 0)
+            return
         peer.send_dimse(ctx, {R.TAG_AFFECTED_SOP_CLASS: svc.FIND, R.TAG_COMMAND_FIELD: 0x8020,
                               R.TAG_MESSAGE_ID_RSP: cmd.get(R.TAG_MESSAGE_ID), R.TAG_STATUS: 0})
         nxt = peer.recv_pdu()
@@ -65,6 +69,14 @@ def run(res, seed, nthreads=6, per=5):
                             first = next(outer, None)
                             list(pynetdicom2.c_find(remote, title + 'N', query(t, title + 'N')))
                             list(outer)
+                        elif t % 4 == 1 and k == 2:
+                            # a query that ends with an error (its id has been on the wire all the same)
+                            from pynetdicom2 import exceptions
+                            try:
+                                list(pynetdicom2.c_find(remote, title[:14] + 'X', query(t, title[:14] + 'X')))
+                                errors.append('the aborted query did not fail')
+                            except exceptions.NetDICOMError:
+                                pass
                         else:
                             list(pynetdicom2.c_find(remote, title, query(t, title)))
                 except Exception as exc:
